@@ -209,6 +209,12 @@ theorem tokenizer_lex_progress (dd : Dialect) (ac : Bool) (l l' : List Frame) (t
   obtain ⟨t1, l1, e, _, g⟩ := lex_total dd ac l
   rw [h] at e; injection e with e; injection e with ea eb; subst ea; subst eb; exact g hne
 
+/-- **The parser's token loop ends**: `for { tok := Lex(); if tok == 0 { break } }` – with comments skipped or kept, and
+whenever the grammar sets `ForceEOF` (after `k` tokens, or never) – returns a finite stream without panic from every
+state. (`lexFrom` is defined by recursion on the bytes left; there is no step limit in it.) -/
+theorem tokenizer_parser_loop_total (dd : Dialect) (ac : Bool) (force : Option Nat) (l : List Frame) :
+    ∃ ts, lexFrom dd ac force l = .ok ts := lexFrom_total dd ac force l
+
 /-- **At most `|input| + 1` tokens** (the final 0 included), for every input and dialect. -/
 theorem tokenizer_token_count (d dd : Dialect) (input : Bytes) (ts : List (Token × Nat))
     (h : tokenize d dd input = .ok ts) : ts.length ≤ input.length + 1 := by
